@@ -588,9 +588,15 @@ class Scenario:
         st = {"v": dict(self.init["v"]), "w": dict(self.init["w"])}
         def dump_exp(s1):
             return [s1[p] for p, _, _ in self.leaves] + [sent]
+        first = [True]
         def both():
-            L.extend(self.dump_code("v")); exp.extend(dump_exp(st["v"]))
-            L.extend(self.dump_code("w")); exp.extend(dump_exp(st["w"]))
+            # the first dump is inline (so every component, the first field included, is accessed inside this function
+            # before any whole-composite assignment); later dumps pass the composite by value to d<k> when that works
+            for var in ("v", "w"):
+                if byval and not first[0]: L.append("    d%d(%s, g1, g2, g3);" % (k, var))
+                else: L.extend(self.dump_code(var))
+                exp.extend(dump_exp(st[var]))
+            first[0] = False
         def setv(s1, leaf, val):
             s1[leaf[0]] = str(NONE_MARK) if val == "none" else shown(leaf[2], val)
         both()
@@ -777,17 +783,60 @@ def programs_stage(run, work):
                       {"program": ARRAYSET_PROBE, "expected": "10 299 12", "observed": r2["out"] if r2 else err2, "target": "native"})
         run.extra.setdefault("gates", []).append("elements of primitive arrays nested in structs are read but never written by the "
                                                   "generated programs while F-ARRAYSET-NESTED is open (probe ARRAYSET_PROBE)")
+    arrayset = bool(r2 and r2.get("rc") == 0 and r2["out"].strip() == "10 299 12")
+    feat = {"byval": byval, "arrayset": arrayset}
     nprog = 2 if quick else 40
-    per = 6 if quick else 10
+    per = 7 if quick else 10
     fails = []
     for pi in range(nprog):
         wasm = (pi % 2 == 1)
         scens = []
         for k in range(per):
-            if not wasm and k % 4 == 3: scens.append(ResScenario(rng, k))
-            else: scens.append(Scenario(rng, k, gen_ptype(rng, rng.choice([0, 1, 1, 2]), wasm), rng.choice([3, 5, 8])))
-        fails += run_scenarios(run, work, "p%d" % pi, scens, "wasm" if wasm else "native", byval and not wasm, depth=0)
+            if not wasm and k % 7 == 6:
+                scens.append(ResScenario(rng, k)); continue
+            t = gen_ptype(rng, rng.choice([0, 1, 1, 2]), wasm)
+            r = rng.random()
+            if r < 0.35: t = ("s", [("p", rng.choice(["i32", "i64"]))] + t[1][1:])       # scalar first field usable as a loop counter
+            elif r < 0.45: t = ("s", [("p", "str")] + t[1][1:])
+            elif r < 0.55 and not wasm: t = ("s", [("o", ("p", rng.choice(["i8", "i32", "i64", "u16"])))] + t[1][1:])
+            if rng.random() < 0.2: t = ("a", rng.choice([1, 2, 3]), t)                    # the variable is a fixed array of structs
+            scens.append(Scenario(rng, k, t, rng.choice([4, 6, 9]), feat))
+        fails += run_scenarios(run, work, "p%d" % pi, scens, "wasm" if wasm else "native", byval, depth=0)
+    for f in fails[:3]:
+        shrink_ops(work, f, byval)
     return fails
+
+def shrink_ops(work, f, byval):
+    """drop operations of a failing scenario one by one while it still fails (greedy, bounded)"""
+    sc = f["sc"]
+    if not isinstance(sc, Scenario): return
+    ops = list(sc.ops)
+    def failing(cand):
+        save = sc.ops; sc.ops = cand
+        try:
+            src, exps = render([sc], byval)
+        finally:
+            sc.ops = save
+        r, err = run_prog(work, "shr", src, f["target"])
+        if r is None: return None
+        got = split_out(r["out"]).get(sc.k, [])
+        df = first_diff(exps[0], got)
+        if r.get("rc") != 0 and df is None: df = (0, "exit 0", "exit %s" % r.get("rc"))
+        return (src, exps[0], df) if df is not None else None
+    budget = 24
+    i = len(ops) - 1
+    best = None
+    while i >= 0 and budget > 0:
+        cand = ops[:i] + ops[i + 1:]
+        budget -= 1
+        res = failing(cand)
+        if res is not None:
+            ops = cand; best = res
+        i -= 1
+    if best is not None:
+        sc.ops = ops
+        f["src"], f["expected"] = best[0], best[1]
+        f["detail"] = "line %d: expected `%s`, got `%s`" % best[2]
 
 def run_scenarios(run, work, name, scens, target, byval, depth):
     """compile + run the scenarios in one program; on a compile failure or a crash bisect to single scenarios"""
